@@ -32,6 +32,7 @@ func init() {
 	families["huge"] = genHuge
 	families["iter_share"] = genIterShare
 	families["merge_chain"] = genMergeChain
+	families["wide_repeat"] = genWideRepeat
 	families["field_limit"] = genFieldLimit
 	families["mass_delete"] = genMassDelete
 	families["card_boundary"] = genCardBoundary
@@ -351,6 +352,27 @@ func genReuse(r *rand.Rand, i int) Scenario {
 			liveIt = append(liveIt, 200+k)
 		}
 	}
+	// stored-field visits reuse a pooled scratch context: a visit stopped early by its visitor, then a
+	// document that stores nothing (or little), then a full one
+	bare := []int{}
+	for d := range b1 {
+		st := 0
+		for _, fi := range b1[d] {
+			if fi.Stored {
+				st++
+			}
+		}
+		if st == 0 {
+			bare = append(bare, d)
+		}
+	}
+	for k := 0; k < 6 && len(b1) > 0; k++ {
+		sc.Ops = append(sc.Ops, Op{Op: "stored", Seg: 1, N: r.Intn(len(b1)), Stop: 1 + r.Intn(2)})
+		if len(bare) > 0 && r.Intn(3) != 0 {
+			sc.Ops = append(sc.Ops, Op{Op: "stored", Seg: 1, N: bare[r.Intn(len(bare))]})
+		}
+		sc.Ops = append(sc.Ops, Op{Op: "stored", Seg: 1, N: r.Intn(len(b1) + 1)})
+	}
 	// dictionary iterators and doc-value readers used across many lookups
 	for k := 0; k < 3; k++ {
 		seg := 1 + r.Intn(3)
@@ -482,6 +504,36 @@ func genStoredShapes(r *rand.Rand, i int) Scenario {
 			Op{Op: "merge", File: 6, In: order, Drops: dr, Mode: 0, Buf: 256}, Op{Op: "load", File: 6, Seg: 6, Backing: "mem"})
 		for n := 0; n < len(b)*2+len(other) && n < 300; n++ {
 			sc.Ops = append(sc.Ops, Op{Op: "stored", Seg: 6, N: n})
+		}
+	}
+	{
+		// field lists that agree on a common prefix and continue differently: [_id p..], [_id p.. y], [_id p.. x]
+		// with x < y, nothing deleted (the byte-copy path keeps the SOURCE segment's field numbers)
+		pool := []string{"fa", "fb", "fc", "fd"}
+		p := r.Intn(2)
+		mk := func(fields []string, base int) Batch {
+			nb := make(Batch, 1+r.Intn(3))
+			for d := range nb {
+				id := []byte(fmt.Sprintf("q%d", base+d))
+				doc := Doc{{Name: "_id", Len: 1, Stored: true, Value: B(id), Terms: []TermOcc{{Term: B(id), Freq: 1, Locs: []Loc{}}}}}
+				for _, f := range fields {
+					doc = append(doc, FieldInst{Name: f, Len: 1, Stored: true, Value: B([]byte(f + "-value-" + string(id))),
+						Terms: []TermOcc{{Term: B([]byte("x")), Freq: 1, Locs: []Loc{}}}})
+				}
+				nb[d] = doc
+			}
+			return nb
+		}
+		pa, pb, pc := mk(pool[:p], 0), mk(append(append([]string{}, pool[:p]...), pool[p+1]), 10), mk(append(append([]string{}, pool[:p]...), pool[p]), 20)
+		nb := len(sc.Batches)
+		sc.Batches = append(sc.Batches, pa, pb, pc)
+		sc.Universe = append(sc.Universe, pool...)
+		order := [][]int{{20, 21, 22}, {20, 22, 21}, {21, 20, 22}}[r.Intn(3)]
+		sc.Ops = append(sc.Ops, Op{Op: "build", Seg: 20, Batch: nb, Mode: 0}, Op{Op: "build", Seg: 21, Batch: nb + 1, Mode: 0}, Op{Op: "build", Seg: 22, Batch: nb + 2, Mode: 0},
+			Op{Op: "merge", File: 23, In: order, Drops: []DropSpec{{Kind: "nil"}, {Kind: "set", Docs: []int{}}, {Kind: "nil"}}, Mode: 0, Buf: 256},
+			Op{Op: "load", File: 23, Seg: 23, Backing: "mem"})
+		for n := 0; n < len(pa)+len(pb)+len(pc); n++ {
+			sc.Ops = append(sc.Ops, Op{Op: "stored", Seg: 23, N: n})
 		}
 	}
 	if len(b) > 1 {
@@ -696,6 +748,10 @@ func genDictRanges(r *rand.Rand, i int) Scenario {
 			aut = &Aut{Kind: "none"}
 		}
 		sc.Ops = append(sc.Ops, Op{Op: "dict", Seg: seg, Field: f, Lo: lo, Hi: hi, Aut: aut})
+		if r.Intn(4) == 0 {
+			// Close() of one dictionary object: later lookups of the same field (fresh and kept objects) go on
+			sc.Ops = append(sc.Ops, Op{Op: "dict_close", Seg: seg, Field: f, ReuseD: r.Intn(2) == 0})
+		}
 		sc.Ops = append(sc.Ops, Op{Op: "contains", Seg: seg, Field: f, Term: B(keysV[r.Intn(len(keysV))])})
 		o := Op{Op: "pl_open", Seg: seg, Field: f, Term: B(keysV[r.Intn(len(keysV))]), Pl: 50 + k}
 		if k > 0 && r.Intn(2) == 0 {
@@ -773,6 +829,11 @@ func genMatch(r *rand.Rand, i int) Scenario {
 			} else {
 				pairs = append(pairs, extra[r.Intn(len(extra))])
 			}
+		}
+		if r.Intn(3) == 0 && len(pairs) > 0 {
+			// a caller that closed a dictionary of the segment before (Close is a rarely used method)
+			sg := 1 + r.Intn(4)
+			sc.Ops = append(sc.Ops, Op{Op: "dict", Seg: sg, Field: pairs[0].Field}, Op{Op: "dict_close", Seg: sg, Field: pairs[0].Field, ReuseD: r.Intn(2) == 0})
 		}
 		sc.Ops = append(sc.Ops, Op{Op: "match", Seg: 1 + r.Intn(4), Pairs: pairs})
 	}
@@ -861,6 +922,9 @@ func genImmut(r *rand.Rand, i int) Scenario {
 	seq := 0
 	b1 := genBatch(r, &cfg, &seq)
 	b2 := genBatch(r, &cfg, &seq)
+	// a field only the second segment knows: statistics of it are "unknown field" results on the others
+	b2 = append(b2, Doc{{Name: "only2", Len: 2, Value: Bytes{}, Terms: []TermOcc{{Term: B([]byte("x")), Freq: 2, Locs: []Loc{}}}}})
+	sc.Universe = append(sc.Universe, "only2")
 	sc.Batches = []Batch{b1, b2}
 	// caller-owned bitmaps; run-heavy contents so that an in-place RunOptimize would change the bytes
 	d1, d2 := []int{}, []int{}
@@ -894,7 +958,11 @@ func genImmut(r *rand.Rand, i int) Scenario {
 	})
 	nops := 4 + r.Intn(5)
 	for k := 0; k < nops; k++ {
-		switch r.Intn(6) {
+		switch r.Intn(7) {
+		case 6:
+			// a caller accumulating statistics over segments, starting with one that lacks the field
+			f := []string{"only2", "nosuchfield", "_id"}[r.Intn(3)]
+			sc.Ops = append(sc.Ops, Op{Op: "stats_merge", Seg: []int{1, 3}[r.Intn(2)], Seg2: 2, Field: f}, Op{Op: "stats", Seg: 1 + r.Intn(3), Field: "nosuchfield"})
 		case 0:
 			sc.Ops = append(sc.Ops, Op{Op: "merge", File: 10 + k, In: []int{1, 2}, Drops: []DropSpec{{Kind: "bm", Bm: 1}, {Kind: "bm", Bm: 2}}, Mode: pickMode(r), Buf: 64})
 		case 1:
@@ -1506,6 +1574,22 @@ func genExtremes(r *rand.Rand, i int) Scenario {
 		}
 		b[d] = doc
 	}
+	// contract: a location names a field of the same batch (a field may have been left out of every document)
+	present := map[string]bool{}
+	for _, f := range b.FieldNames() {
+		present[f] = true
+	}
+	for d := range b {
+		for k := range b[d] {
+			for t := range b[d][k].Terms {
+				for j := range b[d][k].Terms[t].Locs {
+					if !present[b[d][k].Terms[t].Locs[j].Field] {
+						b[d][k].Terms[t].Locs[j].Field = ""
+					}
+				}
+			}
+		}
+	}
 	sc := Scenario{Name: fmt.Sprintf("extremes-%d", i), NormKind: "code", Universe: append([]string{"_id", "nosuchfield"}, names...), Batches: []Batch{b},
 		Tags: []string{"extremes"}}
 	sc.Ops = append(sc.Ops, Op{Op: "build", Seg: 1, Batch: 0, Mode: pickMode(r)}, Op{Op: "observe", Seg: 1, Level: "full"},
@@ -1603,6 +1687,20 @@ func genIterShare(r *rand.Rand, i int) Scenario {
 			o.Except = &DropSpec{Kind: "set", Docs: []int{r.Intn(nd)}}
 		}
 		sc.Ops = append(sc.Ops, o)
+	}
+	if i%3 == 0 {
+		// two readers, each: walk a term that has no location data at all with locations requested, hand the
+		// iterator back for a term that has locations, then both advance in turns
+		sc.Ops = append(sc.Ops,
+			Op{Op: "pl_open", Seg: seg, Field: "a", Term: B([]byte("x")), Pl: 40}, Op{Op: "pl_open", Seg: seg, Field: "a", Term: B([]byte("y")), Pl: 41},
+			Op{Op: "pl_open", Seg: seg, Field: "a", Term: B([]byte("y")), Pl: 42}, Op{Op: "pl_open", Seg: seg, Field: "a", Term: B([]byte("z")), Pl: 43},
+			Op{Op: "it_open", Pl: 40, It: 50, Freq: true, Norm: true, Locs: true}, Op{Op: "it_next", It: 50},
+			Op{Op: "it_open", Pl: []int{40, 43}[(i/3)%2], It: 51, Freq: true, Norm: true, Locs: true}, Op{Op: "it_next", It: 51},
+			Op{Op: "it_open", Pl: 41, It: 50, Prealloc: 50, Freq: true, Norm: true, Locs: true},
+			Op{Op: "it_open", Pl: 42, It: 51, Prealloc: 51, Freq: true, Norm: true, Locs: true})
+		for s := 0; s < nd; s++ {
+			sc.Ops = append(sc.Ops, Op{Op: "it_next", It: 50}, Op{Op: "it_next", It: 51})
+		}
 	}
 	type itS struct {
 		h      int
@@ -1713,10 +1811,10 @@ func genMergeChain(r *rand.Rand, i int) Scenario {
 	}
 	e := 1 + i%3 // the input that loses everything
 	o1, o2 := 1+(e%3), 1+((e+1)%3)
-	mg(10, []int{e}, []DropSpec{allOf(lens[e-1])})                       // zero documents, fields of e
+	mg(10, []int{e}, []DropSpec{allOf(lens[e-1])})                            // zero documents, fields of e
 	mg(11, []int{10, o1}, []DropSpec{none(), randDropsNotAll(r, lens[o1-1])}) // empty first
 	mg(12, []int{o2, 10}, []DropSpec{randDrops(r, lens[o2-1]), none()})       // empty last
-	mg(13, []int{10}, []DropSpec{none()})                                    // empty alone
+	mg(13, []int{10}, []DropSpec{none()})                                     // empty alone
 	mg(14, []int{11, 13, 12}, []DropSpec{{Kind: "nil"}, none(), {Kind: "nil"}})
 	mg(15, []int{o1, 10, 13, o2}, []DropSpec{none(), none(), none(), none()})
 	for _, h := range []int{10, 11, 12, 13, 14, 15} {
@@ -1807,9 +1905,13 @@ func genMassDelete(r *rand.Rand, i int) Scenario {
 func genCardBoundary(r *rand.Rand, i int) Scenario {
 	ns := []int{1023, 1024, 1022, 1025, 2047, 2048}
 	n := ns[i%len(ns)]
+	hot := []byte("t")
+	if i%2 == 1 {
+		hot = []byte{} // the empty term: the first key of the field's dictionary
+	}
 	b1 := make(Batch, n)
 	for d := 0; d < n; d++ {
-		occ := TermOcc{Term: B([]byte("t")), Freq: 1 + d%2, Locs: []Loc{}}
+		occ := TermOcc{Term: B(hot), Freq: 1 + d%2, Locs: []Loc{}}
 		if d%97 == 3 {
 			occ.Locs = append(occ.Locs, Loc{Field: "", Pos: d, Start: 0, End: 1})
 		}
@@ -1818,7 +1920,7 @@ func genCardBoundary(r *rand.Rand, i int) Scenario {
 	one := func(k int) Batch {
 		id := []byte(fmt.Sprintf("s%d", k))
 		return Batch{Doc{{Name: "_id", Len: 1, Stored: true, Value: B(id), Terms: []TermOcc{{Term: B(id), Freq: 1, Locs: []Loc{}}}},
-			{Name: "a", Len: 1, Value: Bytes{}, Terms: []TermOcc{{Term: B([]byte("t")), Freq: 1, Locs: []Loc{}}}}}}
+			{Name: "a", Len: 1, Value: Bytes{}, Terms: []TermOcc{{Term: B(hot), Freq: 1, Locs: []Loc{}}}}}}
 	}
 	sc := Scenario{Name: fmt.Sprintf("card_boundary-%d", i), NormKind: "code", Universe: []string{"_id", "a"}, Batches: []Batch{b1, one(1), one(2)},
 		Tags: []string{"card_boundary"}}
@@ -1871,6 +1973,44 @@ func genFieldLimit(r *rand.Rand, i int) Scenario {
 				Op{Op: "it_next_last"}, Op{Op: "it_next_last"})
 		}
 		sc.Ops = append(sc.Ops, Op{Op: "stored", Seg: seg, N: 0}, Op{Op: "stored", Seg: seg, N: 1})
+	}
+	return sc
+}
+
+// wide_repeat: the very same batch built many times: a wide schema (33-150 fields) with documents that store
+// values in only a few of the fields, in every chunk mode - anything that depends on map iteration order, on the
+// previous build or on the goroutine shows as differing bytes (C14)
+func genWideRepeat(r *rand.Rand, i int) Scenario {
+	nf := 33 + r.Intn(120)
+	names := make([]string, nf)
+	for k := range names {
+		names[k] = fmt.Sprintf("w%03d", k)
+	}
+	nd := 6 + r.Intn(20)
+	b := make(Batch, nd)
+	for d := 0; d < nd; d++ {
+		id := []byte(fmt.Sprintf("r%d", d))
+		doc := Doc{{Name: "_id", Len: 1, Stored: true, Value: B(id), Terms: []TermOcc{{Term: B(id), Freq: 1, Locs: []Loc{}}}}}
+		for q := 0; q < 1+r.Intn(4); q++ {
+			f := names[r.Intn(nf)]
+			doc = append(doc, FieldInst{Name: f, Len: 1, Stored: true, DV: false, Value: B([]byte(fmt.Sprintf("val-%d-%d", d, q))),
+				Terms: []TermOcc{{Term: B(termVocab[r.Intn(4)]), Freq: 1, Locs: []Loc{}}}})
+		}
+		b[d] = doc
+	}
+	// every field exists in the batch (first document carries them all, unstored)
+	for _, f := range names {
+		b[0] = append(b[0], FieldInst{Name: f, Len: 0, Value: Bytes{}, Terms: []TermOcc{}})
+	}
+	sc := Scenario{Name: fmt.Sprintf("wide_repeat-%d", i), NormKind: "code", Universe: []string{"_id", names[0], names[nf-1]}, Batches: []Batch{b},
+		Tags: []string{"wide_repeat"}}
+	mode := pickMode(r)
+	for k := 0; k < 8; k++ {
+		sc.Ops = append(sc.Ops, Op{Op: "build", Seg: 1 + k, Batch: 0, Mode: mode})
+	}
+	sc.Ops = append(sc.Ops, Op{Op: "observe", Seg: 8, Level: "light"})
+	for d := 0; d < nd; d++ {
+		sc.Ops = append(sc.Ops, Op{Op: "stored", Seg: 8, N: d})
 	}
 	return sc
 }
